@@ -264,13 +264,15 @@ Definition squeeze (d : ds) : ds :=
 
 Inductive op :=
 | OBin (o : bop) (r : rhs)
+| OAug (o : bop) (r : rhs)      (* x op= y.  Dataset has no in-place operators: Python rebinds
+                                   x to (x op y); the observable result is that of OBin *)
 | OCopy
 | OMask (m : list bool)
 | OSqueeze.
 
 Definition run_op (d : ds) (o : op) : res ds :=
   match o with
-  | OBin b r => binop b d r
+  | OBin b r | OAug b r => binop b d r
   | OCopy => Ok (copy d)
   | OMask m => if Nat.eqb (List.length m) (List.length (value d)) then Ok (mask_ds d m)
                else Raise 9%nat       (* numpy.ma.MaskError *)
@@ -293,12 +295,17 @@ Fixpoint run_chain (d : ds) (ops : list op) : res ds :=
 Inductive src := Fresh | Shared.
 Record prov := mk_prov { p_value : src; p_error : src; p_bins : src }.
 
+Definition prov_bin (o : bop) (r : rhs) : prov :=
+  match r, o with
+  | RDs _, _ => mk_prov Fresh Fresh Shared
+  | _, Add | _, Sub => mk_prov Fresh Shared Shared
+  | _, _ => mk_prov Fresh Fresh Shared
+  end.
+
 Definition prov_of (o : op) : prov :=
   match o with
   | OCopy => mk_prov Fresh Fresh Fresh
-  | OBin _ (RDs _) => mk_prov Fresh Fresh Shared
-  | OBin Add _ | OBin Sub _ => mk_prov Fresh Shared Shared
-  | OBin _ _ => mk_prov Fresh Fresh Shared
+  | OBin b r | OAug b r => prov_bin b r
   | OMask _ => mk_prov Shared Shared Shared
   | OSqueeze => mk_prov Shared Shared Shared
   end.
